@@ -554,6 +554,7 @@ def run(ctx):
     from . import c01
     c01.check_check_transition(ctx)      # the table is actually consulted for every request (filed under #1 / #2 of this property)
     check_transition_fn(ctx, 2)
+    ob_errors_propagate(ctx, 2, "a transition outside the machine is refused with an error")
     check_writers(ctx, 3)
     check_counts_init(ctx, 3)
     check_status_identity(ctx, 3)
